@@ -320,7 +320,7 @@ pub fn run(ctx: &Ctx) -> i32 {
         })
         .collect();
     let mut total = Report::new();
-    let cfg = util::ForkCfg { threads: ctx.threads, mem_bytes: 4 << 30, case_timeout_s: 60, died_signature: "C08/abort".into() };
+    let cfg = util::ForkCfg { threads: ctx.threads, mem_bytes: 4 << 30, case_timeout_s: 60, died_signature: "C08/abort".into(), resource_is_violation: false };
     let types: Vec<String> = vals
         .iter()
         .map(|v| match rt::run_fresh(format!("std.type({v})").as_bytes(), &RunCfg::default()).outcome {
